@@ -65,6 +65,7 @@ type Sim struct {
 	Version   int
 	Height    int32
 	Blocks    map[string]*Block
+	tokHist   map[string][]verTok
 	CoreLog   []*Ev
 	TxEvents  map[string][]*Ev
 	TxBlock   map[string]string // tx -> block hash the node reports as confirmed ("" = not found)
@@ -157,6 +158,38 @@ func (s *Sim) MainAt(hash string, v int) bool {
 	}
 	return r
 }
+type verTok struct {
+	v int
+	t *Token
+}
+
+// SetToken installs (a new version of) the token contract behind id. Call inside Mutate.
+func (s *Sim) SetToken(id string, t *Token) {
+	if s.tokHist == nil {
+		s.tokHist = map[string][]verTok{}
+	}
+	if old, ok := s.Tokens[id]; ok && len(s.tokHist[id]) == 0 {
+		s.tokHist[id] = append(s.tokHist[id], verTok{0, old})
+	}
+	s.Tokens[id] = t
+	s.tokHist[id] = append(s.tokHist[id], verTok{s.Version, t})
+}
+
+// TokenAt returns the token contract behind id as of state version v (nil: no contract then).
+func (s *Sim) TokenAt(id string, v int) *Token {
+	h, ok := s.tokHist[id]
+	if !ok {
+		return s.Tokens[id]
+	}
+	var r *Token
+	for _, x := range h {
+		if x.v <= v {
+			r = x.t
+		}
+	}
+	return r
+}
+
 func (s *Sim) HeightAt(v int) int32 {
 	var r int32
 	for _, x := range s.heightHist {
